@@ -9,6 +9,7 @@ Float laws used: FL-mul-sign (probabilities).
 import CambrianModel.Lemmas.PopInv
 import CambrianModel.Model.Process
 import CambrianModel.Model.MetaAdapt
+import CambrianModel.Lemmas.LaunchLemmas
 namespace Cambrian.Props
 open Cambrian Cambrian.Ctl Cambrian.Proc
 
@@ -253,5 +254,22 @@ theorem C14_meta_probs (x : F64) (hx : Meta.MulSign x) : Meta.isProb (Meta.probO
     · simp [h, F64.le_fin]
     · simp only [h, decide_false, Bool.false_eq_true, ↓reduceIte, F64.le_fin, Bool.and_eq_true, decide_eq_true_eq]
       omega
+
+/-! ### L7: the report writer is drained before `launch` returns - also when the run failed -/
+
+/-- `sync_launch::launch_with_async_obj_func`: in every reachable state, once the function has returned the writer
+    future has completed (it ends only when the item channel is closed and every item has been written) - for a
+    successful and for a failed run alike, whatever the order of time limit, controller result and writer. -/
+theorem C14_drained (wr : Bool) (evs : List Launch.SEv) :
+    (Launch.srun wr {} evs).1.done = true → (Launch.srun wr {} evs).1.writerFinished.isSome = true :=
+  Launch.srun_ret_after_writer wr {} evs (by simp)
+
+/-- ... and the step that returns the controller's result awaits the writer first -/
+theorem C14_drained_step (wr : Bool) (s : Launch.SSt) (ok : Bool) (hd : s.done = false)
+    (hw : s.writerFinished = none) :
+    (Launch.sstep wr s (.launchDone ok)).2 = if wr then [.awaitWriter, .ret (some ok)] else [.awaitWriter, .ret none] := by
+  rw [Launch.sstep_launchDone wr s ok hd, hw]
+
+example : (Launch.srun true {} [.timeout, .launchDone false]).2 = [.sendTerminate, .awaitWriter, .ret (some false)] := by decide
 
 end Cambrian.Props
